@@ -213,8 +213,10 @@ where
         //
         let counter = HashMap::<u64, u64>::new();
         //
-        let mut rng = ThreadRng::default();
-        let seed = rng.next_u64();
+        let rng = ThreadRng::default();
+        // fixed default seed : two instances with the same parameters must give the same signatures.
+        // change_rng_seed can be used to randomize it explicitly
+        let seed: u64 = 0x9e3779b97f4a7c15;
         //
         ProbOrdMinHash2 {
             m,
